@@ -30,7 +30,7 @@ def run(chk):
     W = world()
     p = W.p
     from . import formulas
-    formulas.recover_formula(chk, p, "C14", "R14.4")
+    formulas.deferred(chk, formulas.recover_formula, p, "C14", "R14.4")
     VK = VClass(p.cls("keys:VerifyingKey"))
     curve = VSym(("param", "curve"), cls=frozenset(["Curve"]))
     q1 = "keys:VerifyingKey.from_public_key_recovery"
@@ -192,4 +192,7 @@ def run(chk):
         for r_ in rs_:
             e_ = Dn.get(r_.id) if isinstance(r_, ast.Name) else r_
             okq &= isinstance(e_, ast.Call) and norm_text(e_.func).endswith("PointJacobi")
-    chk.ob("R14.3", "both candidates are r^-1 * (s*R + (-e mod n)*G)", okq, loc=q3, key="C14|R14.3|formula", detail="candidate expressions differ from inverse_mod(r, n) * (s * R + (-e % n) * generator)")
+    # superseded by R14.4 (formula identity by value numbering), which decides the same clause on
+    # the denoted values; the textual forms above are kept only as a cross-check that may agree
+    # (recorded in the evidence) - a restructured but equal expression is not a finding
+    chk.extra["R14.3_textual_formula_match"] = bool(okq)
